@@ -21,4 +21,4 @@ echo "== demo WITH patch"; (timeout 600 bash -c "$CMD" >/tmp/seed_demo1.txt 2>&1
 git checkout -q -- . && git clean -fdq
 echo "== /verif checks with patch applied to /repo"
 cd /repo && git apply $O/patch.diff && cd /verif && for p in $PROPS; do ./check $p quick 2>&1 | grep -v KNOWN-FINDING | tail -3; done
-git -C /repo checkout -- . ; git -C /repo status --short | grep -v '^??' 
+git -C /repo apply -R $O/patch.diff || echo 'REVERT FAILED'; git -C /repo status --short | grep -v '^??' 
